@@ -398,6 +398,12 @@ class Sym:
                         continue
                     if 'init' in var and var['init'] is not None:
                         for s2, v in self.ev_init(var['init'], s1, var['t']):
+                            if var.get('extends_temporary') and s2.throw is None:
+                                # `const T& x = f();` with f returning by value: x names a temporary of this call,
+                                # a copy of what f designated
+                                cls = var['t'].replace('const ', '').rstrip('&').strip()
+                                if cls in self.F.rec and isinstance(v, tuple):
+                                    v = s2.new_obj(cls, origin=('copy', v))
                             s2.env[('v', var['id'])] = v
                             new.append(s2)
                     else:
